@@ -84,7 +84,11 @@ class PartHandler(PartFlowController):
         self._next_cycle_time_offset += offset
 
     def notify_upstream_of_available_space(self):
-        self._set_waiting_for_part(True)
+        if self._part == None and self._output == None:
+            # The idle time used to prioritize parallel devices starts only
+            # when the device is actually free, not when a busy device
+            # notifies (e.g. because its input was unblocked).
+            self._set_waiting_for_part(True)
         super().notify_upstream_of_available_space()
 
     def space_available_downstream(self):
